@@ -76,8 +76,6 @@ Fixpoint lex_gt (a b : list nat) : bool :=
   | _, _ => false
   end.
 
-(** cost(orders) = prod (i + 1)^2 *)
-Definition cost (m : list nat) : nat := fold_left (fun a i => a * ((i + 1) * (i + 1))) m 1.
 
 Fixpoint find_body (s : string) (p : tprogram) : option (list tstmt) :=
   match p with
